@@ -16,7 +16,7 @@ LEVEL = dict(
 )
 
 
-def run(ctx):
+def _run(ctx):
     F = ctx.facts("default")
     lexrules.check_iso_tables(ctx, F)
     prop_c01.stream_rule(ctx, F)
@@ -53,3 +53,9 @@ def run(ctx):
         ctx.ob("R-TABLE", "iso|keywords|%s" % fn, all(k in tags for k in kws), "%s recognises %s" % (fn, [k.decode() for k in kws]), b.where(),
                what="%s no longer recognises the keyword(s) %s" % (fn, [k.decode() for k in kws if k not in tags]))
     ctx.extra["exhaustive_over"] = "256 byte values for every byte-class obligation"
+
+
+def run(ctx):
+    _run(ctx)
+    import readerrules
+    readerrules.run(ctx, ctx.facts("default"), ("R2",))
